@@ -335,8 +335,14 @@ func main() {
 			p.Idx = idx
 			name := fmt.Sprintf("p%d", idx)
 			u := &unit{Idx: idx, Family: "minigo", Entry: "w" + name, mini: p}
+			fsrc := fmt.Sprintf("func %s() (v0, v1, v2, v3 int) {\n%s\n}", name, p.Src)
+			if skip["named-results"] {
+				// finding open: results are declared as locals and every return names them
+				body := strings.ReplaceAll(p.Src, "return", "return v0, v1, v2, v3")
+				fsrc = fmt.Sprintf("func %s() (int, int, int, int) {\n\tvar v0, v1, v2, v3 int\n%s\n}", name, body)
+			}
 			u.Decls = []string{
-				fmt.Sprintf("func %s() (v0, v1, v2, v3 int) {\n%s\n}", name, p.Src),
+				fsrc,
 				fmt.Sprintf("func w%s() {\n\ta, b, c, d := %s()\n\temit(a)\n\temit(b)\n\temit(c)\n\temit(d)\n}", name, name),
 			}
 			units = append(units, u)
